@@ -11,15 +11,21 @@ ID = "C15"
 LEVEL = "translation_validation"
 LEVEL_TEXT = ("Per generated annotation of the extended universe U+ (exhaustive to depth 2, sampled at depth 3) the REAL library "
               "must build marshaller(T), unmarshaller(T) and codec(T) without error or unbounded recursion, behave as pass-through at "
-              "positions whose type cannot be resolved, and behave the same when built again and after every cache was cleared "
-              "(`programs` = annotations certified). Unbounded parts: the regenerated dispatch tables are shown total on every "
-              "annotation kind incl. TypeVars / type[X] / Callable / user generics / hint-less classes (`Dispatch.dispatch_total`, "
-              "re-decided each run), and the pass-through clause is proved for the model of the routines for every input "
-              "(Props/C15.lean: `any_unmarshal`, `coll_any_passthrough`, `dict_any_passthrough`, `optional_any`). Graph termination / "
-              "acyclicity is C09's theorem, context lookups C16's.")
-LEVEL_NOTE = ("Trusted: Lean kernel, standard axioms; the extractor of the dispatch tables; the construction pipeline itself is "
-              "exercised, not modelled end to end (no Compile model).")
-TECHNIQUE = "per-annotation construction certification on the real library + Lean `decide` of dispatch totality on regenerated tables + pass-through theorems"
+              "positions whose type cannot be resolved, build resolvable structured classes (also ones that define __call__ or carry a "
+              "ClassVar of their own type), and behave the same when built again and after every cache was cleared (`programs` = "
+              "annotations certified). Unbounded parts, kernel-checked (Props/C15.lean, Props/C05.lean, Props/Dispatch.lean): "
+              "`compile_total` / `compile_total_wf` — for EVERY annotation of U (all classes declared, Literal members primitive: "
+              "decidable, implied by wfTy / wfEnv) both model compilers return a routine tree that the validator accepts and that has no "
+              "unknown node; `compile_works` — that tree computes the denotation on every input (C05's `compile_sound_*`); the "
+              "regenerated dispatch tables are total on every annotation kind incl. TypeVars / type[X] / Callable / user generics / "
+              "hint-less classes (`Dispatch.dispatch_total`, re-decided each run); the pass-through clause for every input "
+              "(`any_unmarshal`, `coll_any_passthrough`, `dict_any_passthrough`, `optional_any`). The model compiler is compared "
+              "with the real routine trees node by node by C05's check on every run; graph termination / acyclicity is C09's theorem, "
+              "context lookups C16's.")
+LEVEL_NOTE = ("Trusted: Lean kernel, standard axioms; the extractor of the dispatch tables. The annotations of U+ \\ U (TypeVars, "
+              "Callable, type[X], bare generics, user Generic classes) have no counterpart in the model's `Ty`: for them the "
+              "construction pipeline is exercised on the real library, not modelled.")
+TECHNIQUE = "per-annotation construction certification on the real library + Lean 4 theorems (compile_total / compile_works for every annotation of U, dispatch totality by `decide` on regenerated tables, pass-through)"
 DESIGN_REF = "DESIGN.md §5 C15"
 MODULES = ["TypelibModel.Props.C15", "TypelibModel.Props.Dispatch"]
 TABLES = True
